@@ -91,6 +91,8 @@ def op_strategy(queries):
         st.tuples(st.just('hsub'), CL),
         st.tuples(st.just('sub_slow'), CL, SCRIPT, BLOCK),
         st.tuples(st.just('flag_flip'), CL, SCRIPT, SCRIPT),
+        st.tuples(st.just('late_refresh'), CL, SCRIPT, SCRIPT, MPTX, BLOCK),
+        st.tuples(st.just('late_refresh'), CL, SCRIPT, SCRIPT, MPTX, BLOCK),
         st.tuples(st.just('sleep'), st.integers(0, len(SLEEPS) - 1)),
         st.tuples(st.just('sleep'), st.integers(0, len(SLEEPS) - 1)),
         st.tuples(st.just('quiesce')),
@@ -458,6 +460,55 @@ class SystemMachine:
                     self.info['classes'].add('parent_confirmed_flag_flip')
                 self.max_tip_seen = max(self.max_tip_seen, w.height)
                 self.since['block'] = self.since['mempool'] = True
+        elif kind == 'late_refresh':
+            # a refresh synchronised at height h whose fetch is slow, so that it is handed over
+            # only after block h+1 has been indexed and reported; block h+1 confirms the parent
+            # of an unconfirmed transaction paying a subscribed script (flag flip), or whatever
+            # the generated block picks
+            c = self.client(op[1])
+            if c is None or len(w.mempool) > 3:
+                return
+            if op[5].get('nonce', 0) % 2:
+                # variant: the slow refresh was synchronised *before* the block; it brings a new
+                # transaction paying a subscribed script and is handed over at a height the
+                # block processor has already left behind
+                self.subscribed[c].add(op[3])
+                self.send(c, 'blockchain.scripthash.subscribe',
+                          [W.scripthash_hex(W.SCRIPTS[op[3]])], {'kind': 'sub', 'script': op[3]})
+                await asyncio.sleep(7)
+                machine = self
+
+                def one_block(desc=op[5]):
+                    w.extend([dict(desc, mp=[], txs=[])])
+                    machine.max_tip_seen = max(machine.max_tip_seen, w.height)
+                    machine.info['classes'].add('refresh_delivered_below_last_block_report')
+                if w.mp_add({'ins': [[0, 2]], 'outs': [[op[3], 1]]}) is not None:
+                    self.server.daemon.slow_calls['getrawtransactions'] = (6.5, one_block)
+                self.since['block'] = self.since['mempool'] = True
+                await asyncio.sleep(14)
+                return
+            parent = w.mp_add({'ins': [[0, 1]], 'outs': [[op[2], 1], [op[2], 3]]})
+            child = w.mp_add_spending([(parent.txid, 0)], [[op[3], 1]]) if parent else None
+            if child is None:
+                return
+            self.subscribed[c].add(op[3])
+            self.send(c, 'blockchain.scripthash.subscribe', [W.scripthash_hex(W.SCRIPTS[op[3]])],
+                      {'kind': 'sub', 'script': op[3]})
+            await asyncio.sleep(7)
+            w.extend([{'cb': [[7, 0]], 'nonce': 5, 'coll': None, 'txs': [], 'mp': []}])
+            self.max_tip_seen = max(self.max_tip_seen, w.height)
+            machine = self
+
+            def second_block(desc=op[5]):
+                pool = list(w.mempool)
+                if parent.txid in pool:
+                    w.extend([dict(desc, mp=[pool.index(parent.txid)] + list(desc.get('mp') or []))])
+                    machine.max_tip_seen = max(machine.max_tip_seen, w.height)
+                    machine.info['classes'].add('refresh_delivered_after_next_block')
+            if w.mp_add(op[4]) is not None:
+                self.server.daemon.slow_calls['getrawtransactions'] = (6.5, second_block)
+            self.since['block'] = self.since['mempool'] = True
+            await asyncio.sleep(14)
         elif kind == 'sleep':
             await asyncio.sleep(SLEEPS[op[1]])
         elif kind == 'quiesce':
